@@ -439,21 +439,35 @@ func (g *gen) tpStmt(tp *Ty, ptrResult bool) string {
 			g.feat("tparam_composite")
 			return "_ = " + pick(g, "tpcomposite", "struct{ v "+tp.Name+" }{"+x()+"}", "[1]"+tp.Name+"{"+x()+"}", "map[string]"+tp.Name+"{\"k\": "+x()+"}", "&[]"+tp.Name+"{"+x()+"}", "[]*"+tp.Name+"{new("+tp.Name+")}", "[][]"+tp.Name+"{{"+x()+"}, {}}")
 		}},
-		{true, func() string { n := g.fresh("q"); e, e2 := v(), x(); g.sc.add(n, ptrTo(tp)); return n + " := &" + e + "\n\t*" + n + " = " + e2 + "\n\t_ = " + n }},
-		{true, func() string { return "fmt." + pick(g, "print", "Println(", "Printf(\"%v %d %s\\n\", 1, ", "Print(", "Sprint(") + x() + ")" }},
+		{true, func() string {
+			n := g.fresh("q")
+			e, e2 := v(), x()
+			g.sc.add(n, ptrTo(tp))
+			return n + " := &" + e + "\n\t*" + n + " = " + e2 + "\n\t_ = " + n
+		}},
+		{true, func() string {
+			return "fmt." + pick(g, "print", "Println(", "Printf(\"%v %d %s\\n\", 1, ", "Print(", "Sprint(") + x() + ")"
+		}},
 		{true, func() string {
 			g.feat("tparam_type_switch")
 			n := g.fresh("y")
 			return "switch " + n + " := any(" + x() + ").(type) {\n\tcase " + pick(g, "tscase", "int, string", "nil", tp.Name, "*"+tp.Name, "error", "interface{ M() }") + ":\n\t\t_ = " + n + "\n\tcase []" + tp.Name + ":\n\t}"
 		}},
 		{true, func() string { return "if " + hdr(g.tpCond(tp, ptrResult)) + " {\n\t\t" + g.returnStmt() + "\n\t}" }},
-		{true, func() string { return "if " + hdr(g.tpCond(tp, ptrResult)) + " {\n\t\t" + v() + " = " + x() + "\n\t} else if " + hdr(g.tpCond(tp, ptrResult)) + " {\n\t\t" + g.returnStmt() + "\n\t}" }},
-		{true, func() string { return "for " + hdr(g.tpCond(tp, ptrResult)) + " {\n\t\t" + pick(g, "loopexit", "break", g.returnStmt(), v()+" = "+x()+"\n\t\tbreak") + "\n\t}" }},
+		{true, func() string {
+			return "if " + hdr(g.tpCond(tp, ptrResult)) + " {\n\t\t" + v() + " = " + x() + "\n\t} else if " + hdr(g.tpCond(tp, ptrResult)) + " {\n\t\t" + g.returnStmt() + "\n\t}"
+		}},
+		{true, func() string {
+			return "for " + hdr(g.tpCond(tp, ptrResult)) + " {\n\t\t" + pick(g, "loopexit", "break", g.returnStmt(), v()+" = "+x()+"\n\t\tbreak") + "\n\t}"
+		}},
 		{c.Comparable, func() string {
 			g.feat("tparam_switch")
 			return "switch " + hdr(x()) + " {\n\tcase " + g.tpOperand(tp, false) + ":\n\t\t" + g.returnStmt() + "\n\t}"
 		}},
-		{c.Comparable, func() string { g.feat("tparam_map_key"); return "_ = map[" + tp.Name + "]int{" + g.tpOperand(tp, false) + ": 1}" }},
+		{c.Comparable, func() string {
+			g.feat("tparam_map_key")
+			return "_ = map[" + tp.Name + "]int{" + g.tpOperand(tp, false) + ": 1}"
+		}},
 		{c.Ordered, func() string {
 			g.feat("tparam_minmax")
 			return v() + " = " + pick(g, "minmax", "min", "max") + "(" + x() + ", " + x() + ")"
@@ -505,7 +519,10 @@ func (g *gen) tpStmt(tp *Ty, ptrResult bool) string {
 			g.feat("tparam_chan_recv")
 			return pick(g, "recvform", "<-"+v(), "_, _ = <-"+v(), "select {\n\tcase <-"+v()+":\n\tdefault:\n\t}")
 		}},
-		{c.SendElem != nil, func() string { g.feat("tparam_chan_send"); return "select {\n\tcase " + v() + " <- " + g.arg(c.SendElem, 1) + ":\n\tdefault:\n\t}" }},
+		{c.SendElem != nil, func() string {
+			g.feat("tparam_chan_send")
+			return "select {\n\tcase " + v() + " <- " + g.arg(c.SendElem, 1) + ":\n\tdefault:\n\t}"
+		}},
 		{c.Core && len(c.Terms) == 1 && c.Terms[0].literalable(), func() string {
 			g.feat("tparam_core_literal")
 			return "_ = " + tp.Name + "{}"
